@@ -21,6 +21,9 @@ var ccForms = [][]string{
 	{"public", "max-age=%d"},
 	{"must-revalidate", "max-age=%d"},
 	{`max-age="%d"`},
+	{`max-age=%d, ext="a, max-age=3600"`},
+	{`ext="x, no-store", max-age=%d`},
+	{`ext="say \"hi\", max-age=7200", max-age=%d`},
 	{"no-store"},
 	{"no-cache"},
 	{"private"},
@@ -165,6 +168,13 @@ func genSeqPlan(r *rand.Rand, focus string) *ProxyPlan {
 			res.Expires = ""
 		}
 		for i := range reqs {
+			if i > 0 && r.IntN(8) == 0 && reqs[i].Range == "" {
+				// a Range request carrying the client's own validator in an obsolete date form, with a date
+				// later than anything the origin has: the origin answers it 304 whatever the proxy holds
+				reqs[i].Range = []string{"bytes=0-4", "bytes=2-"}[r.IntN(2)]
+				reqs[i].Hdr = append(reqs[i].Hdr, [2]string{"If-Modified-Since", []string{"Friday, 01-Jan-38 00:00:00 GMT", "Fri Jan  1 00:00:00 2038"}[r.IntN(2)]})
+				continue
+			}
 			switch r.IntN(8) {
 			case 6:
 				// the obsolete HTTP date forms are as valid as the preferred one (RFC 9110 section 5.6.7)
